@@ -21,8 +21,11 @@
       selects, the committer sealed that ciphertext to a node whose key the receiver holds
       (PrivOK, C09); and a member always finds a ciphertext, PROVIDED it holds the key of its
       first non-blank node below the common ancestor or is listed there as unmerged leaf.
-   NOT proved: that this proviso is an invariant of every reachable state (it is what
-   'unmerged leaves' are for; ./check C01 and C09 exercise it on the implementation, with
+   That proviso is the completeness invariant of C09 (Complete: proved preserved for members,
+   receivers, the committer and joiners over the tree model), restated below as
+   C01_member_with_complete_private_state_finds_its_ciphertext.  NOT proved: the end-to-end
+   composition into one 'all members agree' theorem over a single group model (the pieces are
+   separate models tied to the code one by one; ./check C01 and C09 exercise the whole, with
    directed histories in which adds land in holes below re-keyed parents); ./check C01 exercises
    this on the implementation: random histories with every operation kind, three providers
    mixed in one group, several cipher suites and commit options; after every commit all
@@ -30,7 +33,7 @@
    decrypts what every other member sends.
    Statements only. *)
 From Coq Require Import NArith List Bool.
-From MlsV Require Import Res TreeMathGen Tree Kem Priv PrivProofs Decap DecapProofs KemSecrets KemSecretsProofs Filter FilterProofs Pending PendingProofs.
+From MlsV Require Import Res TreeMathGen Tree Kem Priv PrivProofs Decap DecapProofs TreeProofs TreeWF5 PrivComplete KemSecrets KemSecretsProofs Filter FilterProofs Pending PendingProofs.
 Local Open Scope N_scope.
 Import ListNotations.
 
@@ -114,3 +117,13 @@ Theorem C01_stack_resolution_is_the_structural_resolution :
   resolution_of t (TreeMathProofs.node (N.of_nat k) j) = Ok (reso_spec t k j).
 Proof. exact resolution_of_spec. Qed.
 Print Assumptions C01_stack_resolution_is_the_structural_resolution.
+
+Theorem C01_member_with_complete_private_state_finds_its_ciphertext :
+  forall t me pr k excl id leafkey,
+  shape_ok t -> Complete t me pr ->
+  (k <= 29)%nat -> lvl_node (N.of_nat k) me < tlen t ->
+  get t (2 * me) = Some (Leaf id) -> ~ In me excl ->
+  nth_error pr O = Some (Some leafkey) ->
+  exists i key, decap_select t me pr k excl = Ok (Some (i, key)).
+Proof. exact complete_decap_finds_ciphertext. Qed.
+Print Assumptions C01_member_with_complete_private_state_finds_its_ciphertext.
